@@ -162,7 +162,7 @@ CLAIMED = {
    design_ref="DESIGN.md §6 C09"),
  "C10": dict(
    category="proof",
-   text="Theorems in coq/Props/C10.v (18): every offered choice belongs to the passage's current @join section; the OUTPUT of a '-> @join' choice is exactly the text of one render of its own block, then of the tokens between marker k and marker k+1 (to the end when there is no further marker), then hook text; as an equation valid for every state: block once, section text once, filter of the next section's choices, counter - no other block, no passage entry, position unchanged (also on the ghost log: each block statement logged once, in order); the choices offered afterwards are exactly the filter of section k+1's candidates; one snapshot, redo cleared, one-time mark, undo restores exactly; an ordinary choice is a navigation to its target; after any successful goto the shown passage is at section 0 (re-entry restarts, also through jump chains).  Oracles: section numbers in choice texts, block/section texts, progress.",
+   text="Theorems in coq/Props/C10.v (19): every offered choice belongs to the passage's current @join section; the OUTPUT of a '-> @join' choice is exactly the text of one render of its own block, then of the tokens between marker k and marker k+1 (to the end when there is no further marker), then hook text; as an equation valid for every state: block once, section text once, filter of the next section's choices, counter - no other block, no passage entry, position unchanged (also on the ghost log: each block statement logged once, in order); the choices offered afterwards are exactly the filter of section k+1's passage-level candidates followed by the block choices of the section text; one snapshot, redo cleared, one-time mark, undo restores exactly; an ordinary choice is a navigation to its target; after any successful goto the shown passage is at section 0 (re-entry restarts, also through jump chains).  Oracles: section numbers in choice texts, block/section texts, progress.",
    note="Trusted: Coq kernel + vm_compute; the hand-written model Engine/Engine.v is tied to bardic/runtime/engine.py only by the correspondence run (generated stories x histories, every step's result kind and full view compared inside Coq); author code is an arbitrary oracle record in the theorems and the mini-Python of Lang/PyMini.v in the correspondence; harness (generator, term printers). Assumes effect-free display expressions/conditions and no in-place effect of a failing statement before it fails.",
    technique='Coq proofs over the engine model (arbitrary author-code oracle) + vm_compute correspondence on generated stories x histories + direct oracles',
    design_ref="DESIGN.md §6 C10"),
